@@ -42,6 +42,15 @@ func (c08) Gen(rng *rand.Rand, tier string, i int) *sim.Scenario {
 		sc.Noise = genNoise(rng, 6, span, chance(rng, 0.5))
 		sc.Note = "family=network"
 		return sc
+	case k == 7 && chance(rng, 0.5): // SACK handshake that never sees its own SYN-ACK, under a stream of other SYN-ACKs
+		o := &wireOpts{variants: []Variant{{Entry: "sack"}, {Entry: "sack", Loosen: true}}, silentProb: 0.5, noDest: 0.5}
+		wr := genWireRun(rng, o, 0, "c0")
+		wr.lis.NoSynAck = true
+		sc := scenarioFor("C08", rng, []*wireRun{wr})
+		sc.Noise = []sim.Noise{{AtUs: int64(between(rng, 0, 400000)), Kind: fmt.Sprintf("synack:%s:%d", wr.call.Target, wr.call.Port), Seed: rng.Uint32(),
+			EveryUs: int64(pick(rng, 1000, 40000, 200000, 450000)), UntilUs: 60000000}}
+		sc.Note = "family=handshake-flood"
+		return sc
 	case k < 10: // engines cancelled
 		sc := genEngineScenario("C08", rng, engineOpts{serial: chance(rng, 0.5), multiDest: true, late: true, retryable: true})
 		c := &sc.Calls[0]
